@@ -211,8 +211,9 @@ pub fn run_case(case: &ProcCase, prep: &Prepared) -> Ran {
     } else if case.sink == Sink::DashOFileTwoScheduledInvocations {
         let choices: Vec<u8> = case.sched.bytes().map(|b| b - b'0').collect();
         let (ra, rb, _log) = super::proc::run_scheduled_pair(&dir, &child, &child, "openw,writef,rename,flock", &choices);
-        // both must end alike; report the less successful one
-        if ra.exit.is_success() { rb } else { ra }
+        // both succeed: either stands for the pair; exactly one fails cleanly (refusing to write what another live invocation is
+        // writing is legitimate): the successful one is judged — exit 0 still means the file is the image
+        match (ra.exit.is_success(), rb.exit.is_success()) { (true, false) if rb.exit.is_clean_failure() => ra, (false, true) if ra.exit.is_clean_failure() => rb, (true, true) => rb, _ => ra }
     } else if case.sink == Sink::DashOFileWhileAnotherInvocationFails {
         std::fs::write(dir.join("bad.json"), "{\"Top\": [{\"Integer\": ").unwrap();
         let mut other = Child::new(case.profile, &["compile", "bad.json", "-o", "of.bc"]);
